@@ -58,6 +58,22 @@ Definition bind {A} (r : sres A) (s : stage) (k : A -> outcome) : outcome :=
 Definition is_some {A} (o : option A) : bool := match o with Some _ => true | None => false end.
 Definition is_nil {A} (l : list A) : bool := match l with [] => true | _ => false end.
 
+(** * The file system around a run
+
+    [std::fs::write(path, bytes)] "will create a file if it does not exist, and will entirely
+    replace its contents if it does": whatever [path] held before, it holds exactly [bytes]
+    afterwards; no other path changes.  [fs_after prev o] is the content of every path after a run
+    with outcome [o] started in a file system with contents [prev]. *)
+Definition fs_state := str -> option str.
+
+Fixpoint apply_writes (prev : fs_state) (ws : list (str * str)) : fs_state :=
+  match ws with
+  | [] => prev
+  | (p, b) :: r => apply_writes (fun q => if str_eqb q p then Some b else prev q) r
+  end.
+
+Definition fs_after (prev : fs_state) (o : outcome) : fs_state := apply_writes prev (o_writes o).
+
 (** * `--dep PKG=PATH` (fn parse<T, U> in compose.rs / resolve.rs) *)
 
 (** Unicode White_Space, the set removed by Rust's [str::trim]. *)
